@@ -1,4 +1,6 @@
 import Props.C02
+import Props.C13
+import Proofs.JoinConv
 /-!
 # C03 — Gossip converges
 
@@ -156,5 +158,158 @@ the delta is recomputed from the same version: the oversize entry starves every 
 update of that node. -/
 theorem C03_oversize_blocks (now : Nat) (N V : NodeSt) : pull now N V 0 = V := by
   simp [pull, applyEntries]
+
+/-- **One full stream exchange with the owner catches up (network level).**  In every state
+reachable by an allowed history, if node `r` joins (full stream exchange, reply delivered) the
+owner `a`, whose own state holds at least one entry, then afterwards `r`'s view of `a` is at the
+owner's version - hence, by `C03_caught_up_is_exact` applied to the extended history, exactly
+the owner's state.  Whatever `r` knew before (nothing, a stale view, a view learned through third
+parties), and whatever else the reply carries. -/
+theorem C03_join_catches_up {ops : List Op} (h : AllowedRev ops) {r a : String} {sr sa : CState}
+    (hr : (runRev ops).net.nodes.find r = some sr) (ha : (runRev ops).net.nodes.find a = some sa)
+    (hne : r ≠ a) (hent : (own sa).entries ≠ []) (now : Nat) :
+    ∃ sr' V, ((runRev ops).step (.join r a true now)).net.nodes.find r = some sr' ∧
+      sr'.nodes.find a = some V ∧ V.version = (own sa).version := by
+  have hinv := netInv_runRev ops h
+  obtain ⟨hG2, _⟩ := hinv.joinStep true now hr ha hne
+  have hnodeR := hinv.node r sr hr
+  have hnodeA := hinv.node a sa ha
+  -- the state of `a` after the request half, and the reply
+  generalize hdg : sortDigest (digest sr) = dg at hG2
+  generalize hsa2 : (applyDigest (applyDelta now sa (localDelta sr)).1 dg).1 = sa2 at hG2
+  have hnet : ((runRev ops).step (.join r a true now)).net.nodes =
+      ((runRev ops).net.nodes.insert a sa2).insert r (applyDelta now sr (sortDelta (delta sa2 dg true))).1 := by
+    simp [GNet.step, Net.step, hr, ha, hne, Net.setNode, hdg, hsa2]
+  refine ⟨(applyDelta now sr (sortDelta (delta sa2 dg true))).1, ?_⟩
+  have hfr : ((runRev ops).step (.join r a true now)).net.nodes.find r =
+      some (applyDelta now sr (sortDelta (delta sa2 dg true))).1 := by rw [hnet]; simp
+  -- facts about sa2
+  have hf2 : (mkG (runRev ops) (withNodes (runRev ops).net ((runRev ops).net.nodes.insert a sa2))).net.nodes.find a = some sa2 := by
+    simp [mkG]
+  have hnode2 := hG2.node a sa2 hf2
+  have hpres : OwnPresent sa := hnodeA.recv.ownPresent
+  obtain ⟨ho1, hp1, _⟩ := C13_own_state_untouched now sa (localDelta sr) [] hpres
+  obtain ⟨_, _, ho2, _, _⟩ := C13_own_state_untouched now (applyDelta now sa (localDelta sr)).1 [] dg hp1
+  have hown2 : own sa2 = own sa := by rw [← hsa2, ho2, ho1]
+  have hfind2 : sa2.nodes.find a = some (own sa) := by
+    obtain ⟨n, hn⟩ := hnode2.recv.ownPresent
+    rw [hnode2.lid] at hn
+    have : own sa2 = n := by simp [own, hnode2.lid, hn]
+    rw [hn, ← this, hown2]
+  have howner : OwnerInv ((runRev ops).hist a) (own sa) := hnodeA.owner
+  have hOid : (own sa).id = a := hnodeA.ownId
+  -- the digest r sent
+  obtain ⟨hdnd, hdcl, hdall⟩ := digest_spec hnodeR.nd hnodeR.recv.ids
+  have hperm : dg.Perm (digest sr) := hdg ▸ List.mergeSort_perm _ _
+  have hdgnd : (dg.map (·.id)).Nodup := (hperm.map _).nodup_iff.mpr hdnd
+  have hmemdg : ∀ x, x ∈ dg ↔ x ∈ digest sr := fun x => hperm.mem_iff
+  -- ids of the reply
+  have hrnd : ((delta sa2 dg true).map (·.id)).Nodup := delta_ids_nodup hnode2.nd hnode2.recv.ids dg hdgnd
+  have hrpw : (sortDelta (delta sa2 dg true)).Pairwise (fun x y => x.id ≠ y.id) := by
+    have hp : (sortDelta (delta sa2 dg true)).Perm (delta sa2 dg true) := List.mergeSort_perm _ _
+    have : ((sortDelta (delta sa2 dg true)).map (·.id)).Nodup := (hp.map _).nodup_iff.mpr hrnd
+    exact (List.pairwise_map.mp this)
+  have hrlid : sr.localId = r := hnodeR.lid
+  -- top entry of the owner
+  obtain ⟨p0, hp0⟩ := List.exists_mem_of_ne_nil _ hent
+  have hf0 := AMap.findOfMem howner.wf.nodup (k := p0.1) (v := p0.2) hp0
+  have hH : (runRev ops).hist a ≠ [] := List.ne_nil_of_mem (howner.cur _ _ hf0)
+  obtain ⟨kt, et, hkt, hvt⟩ := howner.top _ (howner.cur _ _ hf0)
+  have hetpos := howner.pos et (howner.cur _ _ hkt)
+  cases hV : sr.nodes.find a with
+  | some V =>
+    have hview : ViewInv ((runRev ops).hist a) (own sa) V :=
+      hnodeR.recv.views a V _ _ hV (by rw [hrlid]; exact fun e => hne e.symm) (by simp [GNet.world, ha])
+    obtain ⟨de, hde, hdeid, hdever⟩ := hdall a V hV
+    have hdedg : de ∈ dg := (hmemdg de).mpr hde
+    by_cases hempty : (deltaEntry (own sa) V.version).entries.isEmpty = true
+    · -- nothing newer: the reply has no entry about `a`, and the view is already caught up
+      have hnone : ∀ y ∈ sortDelta (delta sa2 dg true), y.id ≠ a := by
+        intro y hy hya
+        have hy' : y ∈ delta sa2 dg true := mem_sortDelta.mp hy
+        unfold delta at hy'
+        rcases List.mem_append.mp hy' with h1 | h2
+        · obtain ⟨de', hde', hsome⟩ := List.mem_filterMap.mp h1
+          cases hf : sa2.nodes.find de'.id with
+          | none => simp [hf] at hsome
+          | some n =>
+            simp only [hf] at hsome
+            split at hsome
+            · cases hsome
+            · rename_i hne'
+              simp only [Option.some.injEq] at hsome
+              have hyid : y.id = de'.id := by rw [← hsome]; exact hnode2.recv.ids _ _ hf
+              have hde'a : de'.id = a := hyid ▸ hya
+              have : de' = de := by
+                have h1 := List.inj_on_of_nodup_map hdgnd hde' hdedg (by rw [hde'a, hdeid])
+                exact h1
+              subst this
+              rw [hde'a, hfind2] at hf; cases hf
+              rw [hdever] at hne'
+              exact hne' hempty
+        · simp only [if_true, List.mem_map, List.mem_filter, Bool.not_eq_true', List.any_eq_false,
+            decide_eq_true_eq] at h2
+          obtain ⟨n, ⟨_, hn⟩, rfl⟩ := h2
+          exact hn de hdedg (by rw [hdeid]; exact hya.symm)
+      refine ⟨V, hfr, ?_, ?_⟩
+      · rw [applyDelta_find_untouched now a _ sr hnone]; exact hV
+      · have hle := hview.le
+        have : (own sa).version ≤ V.version := by
+          by_cases hlt : V.version < et.version
+          · exfalso
+            have : et ∈ (deltaEntry (own sa) V.version).entries := by
+              simp only [deltaEntry, mem_sortByVersion, List.mem_filter, decide_eq_true_eq]
+              exact ⟨(AMap.mem_vals_iff howner.wf.nodup).mpr ⟨kt, hkt⟩, hlt⟩
+            rw [List.isEmpty_iff] at hempty
+            rw [hempty] at this; cases this
+          · omega
+        omega
+    · -- the reply carries the owner's outstanding entries, all of them
+      have hx : deltaEntry (own sa) V.version ∈ sortDelta (delta sa2 dg true) := by
+        apply mem_sortDelta.mpr
+        unfold delta
+        apply List.mem_append_left
+        apply List.mem_filterMap.mpr
+        refine ⟨de, hdedg, ?_⟩
+        rw [hdeid, hfind2, hdever]
+        simp [hempty]
+      have hxid : (deltaEntry (own sa) V.version).id = a := hOid
+      have := applyDelta_find_of_unique now _ sr _ hrpw hx (by rw [hxid, hrlid]; exact fun e => hne e.symm)
+      rw [hxid, hV] at this
+      simp only [Option.getD_some] at this
+      refine ⟨_, hfr, this, ?_⟩
+      have hne' : (deltaEntry (own sa) V.version).entries ≠ [] := by
+        intro e; rw [e] at hempty; exact hempty rfl
+      obtain ⟨e1, he1⟩ := List.exists_mem_of_ne_nil _ hne'
+      have hp := deltaEntry_pktInv howner (SrcOK.ofOwner howner) V.version
+      have hlt : V.version < (own sa).version := by
+        have := hp.base e1 he1; have := howner.hb e1 (hp.genuine e1 he1); omega
+      have := C03_full_pull_catches_up now howner hview hlt _ (Nat.le_refl _) hH
+      simpa [pull] using this
+  | none =>
+    -- r did not know `a`: the reply carries the owner's full state
+    have hnot : ∀ de ∈ dg, de.id ≠ a := by
+      intro de hde hid
+      obtain ⟨n, hn, _⟩ := hdcl de ((hmemdg de).mp hde)
+      rw [hid, hV] at hn; cases hn
+    have hx : deltaEntry (own sa) 0 ∈ sortDelta (delta sa2 dg true) := by
+      apply mem_sortDelta.mpr
+      unfold delta
+      apply List.mem_append_right
+      simp only [if_true, List.mem_map, List.mem_filter, Bool.not_eq_true', List.any_eq_false, decide_eq_true_eq]
+      refine ⟨own sa, ⟨(AMap.mem_vals_iff hnode2.nd).mpr ⟨a, hfind2⟩, ?_⟩, rfl⟩
+      intro de hde; rw [hOid]; exact hnot de hde
+    have hxid : (deltaEntry (own sa) 0).id = a := hOid
+    have := applyDelta_find_of_unique now _ sr _ hrpw hx (by rw [hxid, hrlid]; exact fun e => hne e.symm)
+    rw [hxid, hV] at this
+    simp only [Option.getD_none] at this
+    refine ⟨_, hfr, this, ?_⟩
+    have hfresh : ViewInv ((runRev ops).hist a) (own sa) ({ id := a, addr := (deltaEntry (own sa) 0).addr } : NodeSt) :=
+      ViewInv.fresh howner _ _
+    have hlt : ({ id := a, addr := (deltaEntry (own sa) 0).addr } : NodeSt).version < (own sa).version := by
+      show 0 < (own sa).version
+      omega
+    have := C03_full_pull_catches_up now howner hfresh hlt _ (Nat.le_refl _) hH
+    simpa [pull] using this
 
 end Piko
